@@ -14,6 +14,6 @@ meta={"property":ID[:3],"round":(6 if ID.endswith("f") else 5 if ID.endswith("e"
  "needs_to_manifest":needs,
  "demo":{"package_dir":pkg,"test":tn,"file":"demo%s_test.go.txt (rename to *_test.go inside package_dir)"%k},
  "confirmed":"in scratch worktree /tmp/seed/%s via /verif/seedrun.sh: demo passes on the unchanged tree, fails with patch.diff applied; go build ./... and the existing tests of the touched packages and the root package pass with the patch"%ID,
- "detected_by":det,"base_commit":("4d73db3 (the pinned commit plus the fix: commits up to it)" if ID[-1]=="c" else "0f42d54 (the pinned commit plus the fix: commits up to it)" if ID[-1]=="f" else "6a9ec4c (the pinned commit plus the fix: commits up to it)" if ID[-1]=="e" else "5e682fa (the pinned commit plus the fix: commits up to it)" if ID[-1]=="d" else "870eb69 (the pinned commit plus the fix: commits up to it)" if ID[-1]=="b" else "the /repo HEAD at the time of round 1 (before fix 870eb69)")}
+ "detected_by":det,"base_commit":("4d73db3 (the pinned commit plus the fix: commits up to it)" if ID[-1]=="c" else "0f42d54 or 9cca367 (the pinned commit plus the fix: commits up to it)" if ID[-1]=="f" else "6a9ec4c (the pinned commit plus the fix: commits up to it)" if ID[-1]=="e" else "5e682fa (the pinned commit plus the fix: commits up to it)" if ID[-1]=="d" else "870eb69 (the pinned commit plus the fix: commits up to it)" if ID[-1]=="b" else "the /repo HEAD at the time of round 1 (before fix 870eb69)")}
 json.dump(meta,open(dst+"/meta.json","w"),indent=1)
 print("saved",dst)
